@@ -22,6 +22,7 @@ import (
 	"github.com/virus-evolution/gofasta/pkg/fastaio"
 	"github.com/virus-evolution/gofasta/pkg/genbank"
 	"github.com/virus-evolution/gofasta/pkg/gff"
+	"github.com/virus-evolution/gofasta/pkg/verifhook"
 	"golang.org/x/exp/constraints"
 )
 
@@ -666,6 +667,7 @@ func getVariants(ref fastaio.EncodedFastaRecord, cdsregions []Region, intregions
 			break
 		}
 
+		verifhook.Jitter("variants.getVariants", record.Idx)
 		cVariants <- AS
 	}
 }
